@@ -35,17 +35,24 @@ def run_table(module, table, timeout=1800, workers=1, heap="4g"):
 # --------------------------------------------------------------------------- C08
 
 
-def c08_table(vmax, timemax, assocmax, lengths=(1, 2, 3), pmax=3):
+def c08_table(vmax, timemax, assocmax, lengths=(1, 2, 3), pmax=3, values=None, tvals=None):
     from mosaik.tiered_time import TieredInterval as TI, TieredTime as TT
 
-    V = range(vmax + 1)
+    class _Fresh(tuple):
+        """Tier values as FRESH int objects on every use (CPython shares the ints -5..256; accumulated delays are never shared)."""
+
+        def __iter__(self):
+            return (int(str(v)) for v in tuple.__iter__(self))
+
+    V = _Fresh(values) if values is not None else range(vmax + 1)
+    TV = _Fresh(tvals) if tvals is not None else V
     classes = {}
     allivs = []
     for n in lengths:
         for tiers in itertools.product(V, repeat=n):
             for c in range(1, n + 1):
                 for p in range(c, pmax + 1):
-                    iv = TI(*tiers, cutoff=c, pre_length=p)
+                    iv = TI(*(int(str(v)) for v in tiers), cutoff=c, pre_length=p)  # (fresh int objects for every interval)
                     classes.setdefault((n, p), []).append(iv)
                     allivs.append(iv)
 
@@ -91,13 +98,16 @@ def c08_table(vmax, timemax, assocmax, lengths=(1, 2, 3), pmax=3):
                 adds.append({"a": rec(a), "b": rec(b), "ok": False, "r": rec(a), "exc": type(e).__name__})
     applies = []
     for iv in allivs:
-        for t in itertools.product(V, repeat=iv.pre_length):
+        for t in itertools.product(TV, repeat=iv.pre_length):
             try:
-                r = TT(*t) + iv
+                r = TT(*(int(str(v)) for v in t)) + iv
                 applies.append({"t": list(t), "iv": rec(iv), "ok": True, "r": list(r.tiers)})
             except Exception:  # noqa: BLE001
                 applies.append({"t": list(t), "iv": rec(iv), "ok": False, "r": list(t)})
-    return {"classes": out_classes, "adds": adds, "applies": applies, "timemax": timemax, "assocmax": assocmax}, len(allivs)
+    tab = {"classes": out_classes, "adds": adds, "applies": applies, "timemax": timemax, "assocmax": assocmax}
+    if tvals is not None:
+        tab["tvals"] = list(tvals)
+    return tab, len(allivs)
 
 
 _R08 = re.compile(r'<<"R08", (\d+), (\d+), \{(.*)\}\s*>>$', re.S)
@@ -146,6 +156,15 @@ def c08(tier, seed):
     for f in f4:
         f.case["id"] = ["len4"] + f.case["id"]
     findings += f4
+    # LARGE tier values (a shift of 300 steps), every value a fresh int object as the sums mosaik computes are
+    tableL, nivsL = c08_table(0, timemax=0, assocmax=0, lengths=(1, 2, 3), pmax=3, values=(0, 300), tvals=(0, 1, 300, 301))
+    fL, stL, secsL, nresL, npairsL = _c08_judge(tableL)
+    for f in fL:
+        f.case["id"] = ["large"] + f.case["id"]
+    findings += fL
+    st4 = {"distinct": st4["distinct"] + stL["distinct"], "generated": st4["generated"] + stL["generated"]}
+    nres4 += nresL
+    secs4 += secsL
     cov = {
         "states": st["distinct"] + st4["distinct"], "transitions": st["generated"] + st4["generated"], "traces_validated_against_impl": nres + nres4,
         "samples": [{"a": table["classes"][3]["ivs"][1], "b": table["classes"][3]["ivs"][5], "lt": table["classes"][3]["lt"][1][5]},
@@ -157,6 +176,7 @@ def c08(tier, seed):
                 f"pointwise order over times with tier values 0..{vmax + 1}; associativity of the specification's Compose over tier values 0..{table['assocmax']}. "
                 f"Plus all {nivs4} intervals of length 4 (cutoff<=pre_length<=4, tier values 0..1; {npairs4} same-class pairs, {len(table4['adds'])} sums, "
                 f"{len(table4['applies'])} applications; pointwise order over times with tier values 0..2). "
+                f"Plus all {nivsL} intervals of length<=3 over the tier values {{0, 300}} built from fresh int objects ({npairsL} pairs; times over {{0,1,300,301}}). "
                 "Each recorded result is one validated 'trace'; all are distinct inputs.",
         "exhaustive": True,
         "checker_cmd": "tlc -workers 1 -config TieredOrder.cfg TieredOrder (TRACE_FILE=<table>), twice",
@@ -175,7 +195,36 @@ def run(prop, tier, seed):
 # --------------------------------------------------------------------------- C06
 
 GP_POOL = [[], [1], [1, 2], [3]]
-C06_SIDS = ["Sa", "Sb", "Sc", "Sd"]
+C06_SIDS = ["Sa", "Sb", "Sc", "Sd", "Se", "Sf", "Sg"]
+
+
+def c06_rings(tier, rng):
+    """Long cycles: a ring of 4-6 (thorough: 7) simulators made of plain connections with an OVERLAY of time-shifted connections
+    (back along every ring edge / skip-one chords / every other ordered pair) that first records longer delays between ring
+    members, in several start orders; and the same with one ring connection time-shifted (resolved: must be accepted)."""
+    out = []
+    for n in range(4, (8 if tier == "thorough" else 7)):
+        sids = C06_SIDS[:n]
+        ring = [(i, (i + 1) % n) for i in range(n)]
+        overlays = {
+            "none": [],
+            "reverse": [(b, a) for a, b in ring],
+            "chords": [(i, (i + 2) % n) for i in range(n)],
+            "all": [(a, b) for a in range(n) for b in range(n) if a != b and (a, b) not in ring],
+        }
+        for oname, extra in overlays.items():
+            for resolved in (False, True):
+                for k in range(6 if tier == "quick" else 12):
+                    conns = [{"src": sids[a], "dst": sids[b], "sa": "e", "da": "ti"} for a, b in ring]
+                    if resolved:
+                        conns[rng.randrange(n)]["shift"] = 1
+                    conns += [{"src": sids[a], "dst": sids[b], "sa": "e", "da": "ti", "shift": 1} for a, b in extra]
+                    rng.shuffle(conns)
+                    order = sids[:]
+                    rng.shuffle(order)
+                    out.append({"sims": [{"sid": x, "type": "hybrid", "gpath": []} for x in sids], "conns": conns, "until": 1, "lazy": False,
+                                "maxloop": 3, "order": order})
+    return out
 
 
 def c06_options(gps):
@@ -275,6 +324,8 @@ def c06(tier, seed):
         scns.append({"sims": [{"sid": C06_SIDS[i], "type": "hybrid", "gpath": list(gps[i])} for i in range(n)],
                      "conns": [dict(opts[i]) for i in combo], "until": 1, "lazy": False, "maxloop": 3})
     nexh = len(scns) - nsample
+    rings = c06_rings(tier, rng)
+    scns += rings
     chunks = [scns[i:i + 500] for i in range(0, len(scns), 500)]
     with mp.get_context("fork").Pool(min(16, os.cpu_count() or 4)) as pool:
         rows = [r for rs in pool.map(_c06_rows, chunks) for r in rs]
@@ -304,7 +355,7 @@ def c06(tier, seed):
         "evaluations": len(rows), "distinct_nontrivial": len(rows),
         "rule": f"every connection multigraph (kinds plain / time-shifted / weak / weak+time-shifted / async_requests, every ordered pair incl. self) over 2 simulators with <= "
                 f"{4 if tier == 'thorough' else 3} and over 3 simulators with <= {3 if tier == 'thorough' else 2} distinct connections, in every placement "
-                f"(up to renaming) in the group tree root/[1]/[1,2]/[3] ({nexh} scenarios, exhaustive), plus {nsample} seeded scenarios of 3-4 simulators with 3-5 connections; "
+                f"(up to renaming) in the group tree root/[1]/[1,2]/[3] ({nexh} scenarios, exhaustive), plus {nsample} seeded scenarios of 3-4 simulators with 3-5 connections, plus {len(rings)} rings of 4-{7 if tier == 'thorough' else 6} simulators with time-shifted overlays in random start orders; "
                 "each is built with the real World/connect and run(until=1); one row per scenario, all distinct",
         "exhaustive": False,
         "outcomes": dict(outs),
@@ -334,9 +385,10 @@ def c11_specs():
                 for shift in (0, 1, 2):
                     for weak in (False, True):
                         for init in (False, True):
-                            for any_ in (False, True):
+                            for any_ in (False, True, "nolist"):
+                                # "nolist": a hybrid any_inputs destination model without trigger / non-trigger lists
                                 yield {"sg": sg, "dg": dg, "pairs": [{"sk": a, "dk": b} for a, b in pairs], "shift": shift, "weak": weak,
-                                       "init": init, "any": any_}
+                                       "init": init, "any": bool(any_), "nolist": any_ == "nolist"}
 
 
 def _obs(ctx, requests=False):
@@ -357,6 +409,13 @@ def _c11_row(spec):
 
     scn = {"sims": [{"sid": "Sa", "type": "hybrid", "gpath": spec["sg"]}, {"sid": "Sb", "type": "hybrid", "gpath": spec["dg"], "any_inputs": spec["any"]}],
            "conns": [{"src": "Sa", "dst": "Sb", "sa": "p2", "da": "i2"}], "until": 2}
+    if spec.get("nolist"):
+        from harness import scn as S_
+
+        meta = S_.meta_for("hybrid")
+        meta["models"]["M"].pop("trigger", None)
+        meta["models"]["M"]["any_inputs"] = True
+        scn["sims"][1]["meta"] = meta
     res = {}
 
     def attempt(ctx, only=None, res=res):
@@ -444,7 +503,7 @@ def c11(tier, seed):
         "evaluations": len(rows), "distinct_nontrivial": len(rows),
         "rule": "cross product of 6x6 placements of source/destination in the group tree (root, [1], [1,2], [3], [1,4], [3,5]: same group, parent/child, "
                 "siblings, cousins) x 9 single attribute pairs (persistent/event/not-an-output x trigger/non-trigger/not-an-input) + 5 multi-pair calls x "
-                "time_shifted in {False, True, 2} x weak x initial data x any_inputs; each row is one real World.connect() call; rejected calls are followed by "
+                "time_shifted in {False, True, 2} x weak x initial data x any_inputs (off / on / on for a hybrid model without trigger lists); each row is one real World.connect() call; rejected calls are followed by "
                 "a run whose per-simulator (time, inputs) sequences are compared with the scenario in which only the accepted pairs of the call are connected",
         "exhaustive": True,
         "outcomes": dict(collections.Counter(r["out"] for r in rows)),
@@ -544,9 +603,17 @@ def c12(tier, seed):
     universe = ("a", "b") if tier == "quick" else ("a", "b", "c")
     rows = c12_rows(universe)
     algebra = c12_algebra(universe)
-    t1 = time.time()
     size = 4000 if tier == "quick" else 8000
     parts = [(rows[i:i + size], algebra if i == 0 else [], universe) for i in range(0, len(rows), size)]
+    # attribute names are opaque strings: the same enumeration over names that differ only by whitespace / case / a dot
+    # (any normalisation of names during classification merges or loses them)
+    odd = ("p", "p ") if tier == "quick" else ("p", " p", "P")
+    rows2 = c12_rows(odd)
+    parts += [(rows2[i:i + size], [], odd) for i in range(0, len(rows2), size)]
+    rows3 = c12_rows(("q.x", "q-x"))
+    parts += [(rows3[i:i + size], [], ("q.x", "q-x")) for i in range(0, len(rows3), size)]
+    rows = rows + rows2 + rows3
+    t1 = time.time()
     with cf.ThreadPoolExecutor(max_workers=14) as ex:
         results = list(ex.map(_judge_c12, parts))
     findings, states, trans = [], 0, 0
@@ -566,7 +633,7 @@ def c12(tier, seed):
         "evaluations": len(rows) + len(algebra), "distinct_nontrivial": len(rows) + len(algebra),
         "rule": f"every model description with each of attrs / trigger / non-trigger / persistent / non-persistent absent or any subset of {list(universe)} "
                 f"x any_inputs x 3 simulator types ({len(rows)} descriptions; real parse_attrs; result sets compared by membership on the universe plus the witness 'z' "
-                f"for 'any other attribute'); plus every InOrOutSet expression x op y, op in |,&,-,==,in over the finite/co-finite sets over the same universe ({len(algebra)} rows)",
+                f"for 'any other attribute'); the same over the name universes {list(odd)} and ['q.x', 'q-x'] (names are opaque); plus every InOrOutSet expression x op y, op in |,&,-,==,in over the finite/co-finite sets over the same universe ({len(algebra)} rows)",
         "exhaustive": True,
         "accepted": sum(1 for r in rows if r["ok"]),
         "record_secs": round(t1 - t0, 1),
